@@ -229,7 +229,7 @@ def fmt(p):
 def run_families(payload):
     """The bounded families (see DESIGN 2 C04/C05).  Returns problems for C04 and for C05 separately."""
     import random
-    payload = payload or {}
+    payload = payload if isinstance(payload, dict) else {}      # a replay file carries the failing case as text: rerun the families
     tier, only = payload.get('tier', 'quick'), payload.get('only')
     rnd = random.Random(payload.get('seed', 0))
     np, Gridder, gcd = _import_grid()
